@@ -309,7 +309,7 @@ def _cached(cache: Optional[dict], key: str, fn):
 
 
 def apply_prim(env: Env, node, prim, as_lookup: bool = False, cache: Optional[dict] = None):
-    """-> ("O", node) | ("R", msg) | ("E", msg)"""
+    """-> ("O", node) | ("R", msg) | ("E", msg) | ("U", msg: a raw unwrapped node was returned)"""
     from metador_core.container.wrappers import MetadorNode
     t = prim[0]
     try:
@@ -365,6 +365,9 @@ def apply_prim(env: Env, node, prim, as_lookup: bool = False, cache: Optional[di
         return ("R" if is_refusal(e) else "E", f"{type(e).__name__}: {e}"[:160])
     if isinstance(res, MetadorNode):
         return ("O", res)
+    if res is not None and hasattr(res, "attrs") and hasattr(res, "name"):
+        # a raw (unwrapped) group / dataset / file of the driver was handed out
+        return ("U", f"unwrapped {type(res).__name__} {getattr(res, 'name', '?')}")
     return ("E", f"no node: {type(res).__name__}")
 
 
@@ -588,23 +591,23 @@ def config_ops(env: Env) -> Dict[str, List[list]]:
 
 class Sessions:
     """Hands out wrappers for replays.  A MetadorContainer wrapper is shared between replays
-    unless the start node is the container itself (restrict mutates it) or a restrict step
-    was applied to the wrapper object itself."""
+    until a restrict step is applied to the wrapper object itself (restrict mutates in place)."""
 
     def __init__(self, env: Env, start: str, flags):
         self.env, self.start, self.flags = env, start, flags
         self.shared: Optional[Session] = None
 
     def fresh(self) -> Session:
-        if self.start == "container" or self.shared is None:
-            s = Session(self.env, self.start, self.flags)
-            if self.start != "container":
-                self.shared = s
-            return s
+        if self.shared is None:
+            self.shared = Session(self.env, self.start, self.flags)
+            return self.shared
         s = self.shared
         t = Session.__new__(Session)
         t.env, t.W, t.U = s.env, s.W, s.U
-        t.node = t.W[_abs(STARTS[self.start][0])].restrict(**flag_kwargs(self.flags))
+        if self.start == "container":
+            t.node = s.W            # carries exactly the start flags as long as `restricted` has not fired
+        else:
+            t.node = t.W[_abs(STARTS[self.start][0])].restrict(**flag_kwargs(self.flags))
         return t
 
     def restricted(self, sess: Session, obj):
@@ -754,6 +757,8 @@ def eval_case(case: Dict[str, Any]) -> Dict[str, Any]:
                 if st != "O":
                     res["trace"].append([prim, st, r])
                     res["stopped"] = i
+                    if st == "U" and any(flags):
+                        res["problems"].append(RAW_CLAIM)
                     node = None
                     break
                 node = r
@@ -770,6 +775,9 @@ def eval_case(case: Dict[str, Any]) -> Dict[str, Any]:
         finally:
             env.close()
     return res
+
+
+RAW_CLAIM = "navigation from a restricted node handed out a raw (unwrapped, unrestricted) object"
 
 
 def claims_node(flags, start_path, prev_acl, segs, acl, prim) -> List[str]:
@@ -861,7 +869,7 @@ def run(ctx: vlib.Ctx):
     # IH5 path resolution is ~40x slower than h5py, the wrapper code under test is the same for both drivers.
     plan = {
         "hdf5": (3, None) if ctx.quick else (4, (3, 0.10)),
-        "ih5": (3, (2, 0.02)) if ctx.quick else (3, (2, 0.35)),
+        "ih5": (2, (1, 0.2)) if ctx.quick else (3, (2, 0.2)),
     }
     nslices = {"hdf5": 4, "ih5": 2}
     tasks = [(d, s, f, plan[d][0], sl, nslices[d], plan[d][1], ctx.seed)
@@ -872,7 +880,10 @@ def run(ctx: vlib.Ctx):
     t0 = _t.time()
     outs = vlib.pmap(w_explore, tasks)
     vlib.log(f"c15: explored {len(tasks)} tasks in {_t.time() - t0:.1f}s; slowest: "
-             + str(sorted(((round(o.get('wall', 0), 1), o['task']) for o in outs), reverse=True)[:4]))
+             + str(sorted(((round(o.get('wall', 0), 1), o['task']) for o in outs), reverse=True)[:4])
+             + " cpu-seconds per driver: "
+             + str({d: round(sum(o.get('wall', 0) for o in outs if o['task'][0] == d)) for d in DRIVERS})
+             + " slowest hdf5: " + str(max((round(o.get('wall', 0), 1), o['task']) for o in outs if o['task'][0] == 'hdf5')))
 
     disagreements: List[Dict[str, Any]] = []
     candidates: List[Dict[str, Any]] = []       # oracle failures (code alone)
@@ -916,7 +927,7 @@ def run(ctx: vlib.Ctx):
         if len(disagreements) < 40:
             disagreements.append(d)
 
-    def check_ops(driver, start, flags, chain, kind, mflags, results, problems):
+    def check_ops(driver, start, flags, chain, kind, mflags, results, problems, node_ok=True):
         nonlocal evals
         ops = opsets[(driver, kind)]
         want = gtable[(driver, kind, tuple(mflags))] if mflags is not None else None
@@ -929,7 +940,7 @@ def run(ctx: vlib.Ctx):
             if want is not None and want[i] != "na" and want[i] != got:
                 note_dis({"kind": "op", "driver": driver, "start": start, "flags": flags, "chain": chain,
                           "op": op, "model": want[i], "impl": got})
-            for pr in claims_op(flags, op, got, False):
+            for pr in (claims_op(flags, op, got, False) if node_ok else []):
                 candidates.append({"driver": driver, "start": start, "flags": list(flags), "chain": chain,
                                    "op": op, "claim": pr})
         for p in problems:
@@ -975,9 +986,9 @@ def run(ctx: vlib.Ctx):
                 if m[0] != st:
                     note_dis({"kind": "step", "driver": driver, "start": start, "flags": flags,
                               "chain": chain + [prim], "model": list(m), "impl": [st, item[2]]})
-                # local_only: upward primitives must be refused
-                if flags[1] and st == "E" and prim[0] in ("file",):
-                    pass
+                if st == "U" and any(flags):
+                    candidates.append({"driver": driver, "start": start, "flags": list(flags),
+                                       "chain": chain + [prim], "op": None, "claim": RAW_CLAIM})
                 continue
             _, _, segs, kind, acl, results, problems = item
             dist["nodes_reached"] += 1
@@ -994,7 +1005,10 @@ def run(ctx: vlib.Ctx):
                 candidates.append({"driver": driver, "start": start, "flags": list(flags),
                                    "chain": chain + [prim], "op": None,
                                    "claim": "file not refused below a local_only start node"})
-            check_ops(driver, start, flags, chain + [prim], kind, m[3] if m[0] == "O" else None, results, problems)
+            node_ok = all(a or not f for a, f in zip(acl, flags)) and \
+                (not flags[1] or segs[:len(start_path)] == list(start_path))
+            check_ops(driver, start, flags, chain + [prim], kind, m[3] if m[0] == "O" else None, results, problems,
+                      node_ok)
 
     # monotonicity along steps on the code alone: compare every reached node with its predecessor
     acl_of: Dict[Tuple, Tuple] = {}
@@ -1021,43 +1035,48 @@ def run(ctx: vlib.Ctx):
                                            "chain": rec["chain"] + [PRIMS[item[0]]], "op": None,
                                            "claim": f"step {PRIMS[item[0]][0]} removed the restriction {nm}"})
 
-    # ---- confirm, shrink and report oracle failures (one per distinct signature)
-    reported: Dict[str, Dict[str, Any]] = {}
-    by_sig: Dict[str, Dict[str, Any]] = {}
-    for c in sorted(candidates, key=lambda c: (len(c["chain"]), sum(c["flags"]), c["driver"])):
-        # group by (claim, last primitive kind, op kind): the shortest chain represents the group
+    # ---- confirm, shrink and report oracle failures (one per root cause)
+    by_group: Dict[str, Dict[str, Any]] = {}
+    order = sorted(candidates, key=lambda c: (c["op"] is not None, not c["claim"].startswith("step "),
+                                              len(c["chain"]), sum(c["flags"]), [-int(x) for x in c["flags"]],
+                                              c["driver"]))
+    for c in order:
         k = json.dumps([c["claim"], c["chain"][-1][0] if c["chain"] else None, c["op"][:2] if c["op"] else None])
-        by_sig.setdefault(k, c)
-    groups = list(by_sig.values())[:60]
-    for c in groups:
+        by_group.setdefault(k, c)
+    kept: List[Dict[str, Any]] = []
+    seen_sig = set()
+
+    def kinds(c):
+        return [p[0] for p in c["chain"]]
+
+    def contains(cc, kk):
+        return any(cc[i:i + len(kk)] == kk for i in range(len(cc) - len(kk) + 1))
+
+    for c in list(by_group.values())[:80]:
+        # derived from an escape already reported?  (same or longer chain through the same steps)
+        if any(k["op"] is None and contains(kinds(c), kinds(k)) for k in kept):
+            for k in kept:
+                if k["op"] is None and contains(kinds(c), kinds(k)) and c["claim"] not in k["also"]:
+                    k["also"].append(c["claim"])
+            continue
         small = shrink_case(c)
         if small is None:
             ctx.notes.append(f"oracle candidate not reproduced alone: {c}")
             continue
-        sig = canon_sig(small)
-        s = vlib.signature(sig)
-        if s in reported:
+        if any(k["op"] is None and contains(kinds(small), kinds(k)) for k in kept):
             continue
-        reported[s] = small
-    # keep only minimal root causes: a case whose chain contains an already reported shorter escape is derived
-    finals = sorted(reported.values(), key=lambda c: (len(c["chain"]), c["op"] is not None))
-    kept: List[Dict[str, Any]] = []
-    for c in finals:
-        derived = False
-        for k in kept:
-            kk = [p[0] for p in k["chain"]]
-            cc = [p[0] for p in c["chain"]]
-            if k["op"] is None and len(kk) <= len(cc) and any(cc[i:i + len(kk)] == kk for i in range(len(cc) - len(kk) + 1)) \
-                    and (c["op"] is not None or len(cc) > len(kk)):
-                derived = True
-        if not derived:
-            kept.append(c)
+        s_ = vlib.signature(canon_sig(small))
+        if s_ in seen_sig:
+            continue
+        seen_sig.add(s_)
+        small["also"] = []
+        kept.append(small)
     for c in kept:
         ctx.violation(
             f"{c['claim']}: driver={c['driver']} start={c['start']} flags={flag_kwargs(c['flags'])} "
-            f"chain={[p[0] for p in c['chain']]} op={c['op']}",
-            {"kind": "escape", **c, "evaluation": c.get("evaluation")},
-            sig_obj=canon_sig(c))
+            f"chain={[p[0] for p in c['chain']]} op={c['op']}"
+            + (f" (consequences seen: {c['also'][:4]})" if c["also"] else ""),
+            {"kind": "escape", **c}, sig_obj=canon_sig(c))
 
     # ---- cross-check extraction on a sample
     xc = vlib.coq_crosscheck("c15", nav_cases[:: max(1, len(nav_cases) // 25)][:25] + guard_cases[:6],
